@@ -135,6 +135,9 @@ def helper_cells(maxw, rng):
                        lambda P, *v, kf=kf: _pick(P, v, _ext(P, [kf(x) for x in v], lambda x, y: x < y)[0])))
         cs.append(Cell(f"maximum_key|{t}", ins, t, f"{{o}} <<= std.maximum({lst}, key={key})", lambda P, *v, kf=kf: _pick(P, v, _ext(P, [kf(x) for x in v], lambda x, y: x > y)[0])))
         cs.append(Cell(f"minimum_key|{t}", ins, t, f"{{o}} <<= std.minimum({lst}, key={key})", lambda P, *v, kf=kf: _pick(P, v, _ext(P, [kf(x) for x in v], lambda x, y: x < y)[0])))
+        cs.append(Cell(f"maximum_args_key|{t}", ins, t, f"{{o}} <<= std.maximum({{a}}, {{b}}, {{c}}, {{d}}, key={key})", lambda P, *v, kf=kf: _pick(P, v, _ext(P, [kf(x) for x in v], lambda x, y: x > y)[0])))
+        cs.append(Cell(f"minimum_args_key|{t}", ins, t, f"{{o}} <<= std.minimum({{a}}, {{b}}, {{c}}, {{d}}, key={key})", lambda P, *v, kf=kf: _pick(P, v, _ext(P, [kf(x) for x in v], lambda x, y: x < y)[0])))
+        cs.append(Cell(f"minimum_args2_key|{t}", ins[:2], t, f"{{o}} <<= std.minimum({{a}}, {{b}}, key={key})", lambda P, *v, kf=kf: _pick(P, v, _ext(P, [kf(x) for x in v], lambda x, y: x < y)[0])))
         cs.append(Cell(f"count_until_cond|{t}", ins, U(4), f"{{o}} <<= std.count_elements_until({lst}, cond=lambda x: x > {{d}})", lambda P, *v: cnt_while(P, [P.lnot(x > v[3]) for x in v])))
         cs.append(Cell(f"count_until_cond_eq|{t}", ins, U(4), f"{{o}} <<= std.count_elements_until({lst}, cond=lambda x: x == {{b}})", lambda P, *v: cnt_while(P, [x != v[1] for x in v])))
     for w in (3, 5):
@@ -163,8 +166,21 @@ def helper_cells(maxw, rng):
         ins = [(f"v{i}", BV(2)) for i in range(n)]
         lst = "[" + ", ".join(f"{{v{i}}}" for i in range(n)) + "]"
         cs.append(Cell(f"binary_fold|concat|{n}", ins, BV(2 * n), f"{{o}} <<= std.binary_fold(lambda x, y: x @ y, {lst})", lambda P, *v: _fold(P, lambda P, x, y: P.shl(x, 2) + y, v)))
+        # non-commutative operators through the right fold: fn(v0, fn(v1, ...)) -- same operand order as the left fold
+        cs.append(Cell(f"binary_fold_right|concat|{n}", ins, BV(2 * n), f"{{o}} <<= std.binary_fold(lambda x, y: x @ y, {lst}, right_fold=True)", lambda P, *v: _fold(P, lambda P, x, y: P.shl(x, 2) + y, v)))
+        cs.append(Cell(f"binary_fold_right|sub|{n}", [(k, U(2)) for k, _ in ins], U(2), f"{{o}} <<= std.binary_fold(lambda x, y: x - y, {lst}, right_fold=True)",
+                       lambda P, *v: _fold_right(P, lambda P, x, y: P.wrap(x - y, 2, False), v)))
+        cs.append(Cell(f"binary_fold|sub|{n}", [(k, U(2)) for k, _ in ins], U(2), f"{{o}} <<= std.binary_fold(lambda x, y: x - y, {lst})",
+                       lambda P, *v: _fold(P, lambda P, x, y: P.wrap(x - y, 2, False), v)))
         cs.append(Cell(f"batched_fold|concat|{n}", ins, BV(2 * n), f"{{o}} <<= std.batched_fold(lambda x, y: x @ y, {lst})", lambda P, *v: _fold(P, lambda P, x, y: P.shl(x, 2) + y, v)))
     return cs
+
+
+def _fold_right(P, f, v):
+    acc = v[-1]
+    for x in reversed(v[:-1]):
+        acc = f(P, x, acc)
+    return acc
 
 
 def _or_all(P, xs):
